@@ -249,6 +249,12 @@ def other_objective(r: random.Random, task):
     lows, highs, perm_n = var_ranges(t["vars"])
     if "multi" in t["objective"]:
         t["objective"] = {"multi": [_scalar_spec(r, lows, highs) for _ in t["objective"]["multi"]]}
+        if t.get("weights"):
+            # same number of objectives, another trade-off
+            w = [r.choice([0.0, 0.1, 0.4, 0.5, 1.0, 2.0, 3.0]) for _ in t["weights"]]
+            if not any(w):
+                w[0] = 1.0
+            t["weights"] = w
     else:
         t["objective"] = _scalar_spec(r, lows, highs, has_perm=perm_n)
     if r.random() < 0.5:
@@ -501,4 +507,6 @@ def gen_scenario(seed: int, optimizer: str, family: str, mode: str, validate, *,
         "faults": gen_faults(r, mode, workers or 0, p_none=opts.get("p_no_faults", 0.45), kinds=opts.get("fault_kinds")),
     }
     desc["history"] = gen_history(r, task, p=opts.get("p_history", 0.2))
+    # diagnostics switched on (observer effect): the constructor's debug flag only prints
+    desc["debug"] = r.random() < opts.get("p_debug", 0.08)
     return desc
